@@ -82,6 +82,10 @@ type Path struct {
 	lastAppend *appendInfo
 	preserved *State
 	defers0   int
+	outerHead  *ssa.BasicBlock
+	outerVars  map[string]Val
+	outerState State
+	outerDec0  string
 	loopStart map[string]Val
 	loopStartState State
 }
@@ -661,6 +665,7 @@ type Loc struct {
 	RowsOf  string // map rows of every map stored in the array at this base address (entry-state heap term in RowsHeap)
 	RowsHeap string
 	RowsN   int64
+	AllTag  int // every address whose field tag is this one (modifies fields(T.f))
 	MapRow bool                   // whole map row (Addr is the map ref) in a MapHas/MapVal heap
 	All    bool
 }
